@@ -60,6 +60,8 @@ inductive Ev where
   | write (m : Name) (p : String) | firstpoll (m : Name) | rounddone (t : Name)
   | deadline | timeout (t : Name) | ready | exit
   | shutdownbegin | stopPoll (m : Name) | shutdown (m : Name)
+  | latepoll (m : Name)       -- observed only: a poll after some module was shut down
+  | alive (t : Name)          -- observed only: poll thread of `t` exists after shutdown_modules returned
 deriving Repr, DecidableEq, Inhabited
 
 /-- an entry of `SecNode.errors`, classes only -/
